@@ -73,6 +73,18 @@ type UFun struct {
 	Result string
 }
 
+// FieldWriters: the complete list of functions of the module that may store to a
+// struct field (module-wide frame audit for exported representation fields).
+type FieldWriters struct {
+	Pkg     string
+	Type    string
+	Field   string
+	Allowed []string
+	Tags    []string
+	File    string
+	Line    int
+}
+
 // Pin: a package-level string whose initial value an assumed meaning depends on
 // (regular expressions: the axioms about them are about these texts).
 type Pin struct {
@@ -114,13 +126,14 @@ type ContractSet struct {
 	Funcs          map[string]*Contract
 	ZeroFacts      map[string][]*Axiom // type string -> facts about a freshly allocated zero value `x`
 	Pins           []*Pin
+	Writers        []*FieldWriters
 	Defs           map[string]*SpecDef // key pkg.name
 	Devirts        []Devirt
 	NoEffectIfaces map[string]bool
 	Files          []string
 }
 
-var clauseRe = regexp.MustCompile(`^(premise|postulate|requires|ensures|modifies|loop|use|func|extern|iface|pred|ghost|devirt|noeffect|assumed|inline|safety|nosafety|params|pure|nativestrings|pin|zerovalue|ufun|axiom|serves|modset|callsite|gstate)\b`)
+var clauseRe = regexp.MustCompile(`^(premise|postulate|requires|ensures|modifies|loop|use|func|extern|iface|pred|ghost|devirt|noeffect|assumed|inline|safety|nosafety|params|pure|nativestrings|pin|fieldwriters|zerovalue|ufun|axiom|serves|modset|callsite|gstate)\b`)
 
 func newContractSet() *ContractSet {
 	return &ContractSet{Funcs: map[string]*Contract{}, Defs: map[string]*SpecDef{}, NoEffectIfaces: map[string]bool{}, UFuns: map[string]*UFun{}, ModSets: map[string]*ModSet{}, GStates: map[string]*GState{}}
@@ -232,6 +245,32 @@ func (cs *ContractSet) loadFileAs(path string, pkgKey string) error {
 				}
 			}
 			cs.UFuns[pkgName+"."+u.Name] = u
+			cur = nil
+		case "fieldwriters":
+			// fieldwriters[TAGS] Type.field = fn, fn, ...   (function keys as in `func` clauses; prefix* allowed)
+			fw := &FieldWriters{Pkg: pkgName, File: path, Line: s.line}
+			r := rest
+			if m := tagRe.FindStringSubmatch(r); m != nil {
+				for _, t := range strings.Split(m[1], ",") {
+					fw.Tags = append(fw.Tags, strings.TrimSpace(t))
+				}
+				r = strings.TrimSpace(r[len(m[0]):])
+			}
+			eqi := strings.Index(r, "=")
+			if eqi < 0 {
+				return fail(fmt.Errorf("fieldwriters wants: Type.field = functions"))
+			}
+			tf := strings.Split(strings.TrimSpace(r[:eqi]), ".")
+			if len(tf) != 2 {
+				return fail(fmt.Errorf("fieldwriters wants Type.field"))
+			}
+			fw.Type, fw.Field = tf[0], tf[1]
+			for _, a := range strings.Split(r[eqi+1:], ",") {
+				if a = strings.TrimSpace(a); a != "" {
+					fw.Allowed = append(fw.Allowed, qualify(pkgName, a))
+				}
+			}
+			cs.Writers = append(cs.Writers, fw)
 			cur = nil
 		case "pin":
 			// pin[TAGS] name = "go string literal"
